@@ -78,6 +78,7 @@ type Store struct {
 	datasets             *sync.Map              // concurrent map of datasets
 	datasetsByInternalID *sync.Map              // concurrent map of datasets
 	deletedDatasets      map[uint32]bool        // list of datasets to be garbage collected
+	parent               *Store                 // set on a contextual store: the store it was derived from
 	storeLocation        string                 // local location of data folder
 	nextDatasetID        uint32                 // the next internal id for a dataset
 	NamespaceManager     *NamespaceManager      // namespace manager for consistent short expansions
@@ -99,7 +100,12 @@ type BadgerLogger struct { // we use this to implement the Badger Logger interfa
 }
 
 func NewContextualStore(store *Store) *Store {
+	parent := store
+	if store.parent != nil {
+		parent = store.parent
+	}
 	return &Store{
+		parent:               parent,
 		database:             store.database,
 		datasets:             store.datasets,
 		datasetsByInternalID: store.datasetsByInternalID,
@@ -189,6 +195,16 @@ func (s *Store) Stop(ctx context.Context) error {
 	s.logger.Infof("Closing store")
 	return s.Close()
 }*/
+
+// deletedSet is the published set of deleted datasets. Deleting a dataset replaces the set (copy on write) in the store
+// the dataset manager works on; a contextual store lives as long as the job it was made for, so it must not filter with
+// the reference it copied when it was created but with its parent's current one.
+func (s *Store) deletedSet() map[uint32]bool {
+	if s.parent != nil {
+		return s.parent.deletedDatasets
+	}
+	return s.deletedDatasets
+}
 
 func (s *Store) Delete() error {
 	err := s.Close()
@@ -730,7 +746,7 @@ func (s *Store) GetEntityAtPointInTimeWithInternalID(
 		currentDatasetID = binary.BigEndian.Uint32(key[10:])
 
 		// check if dataset has been deleted, or must be excluded
-		datasetDeleted := s.deletedDatasets[currentDatasetID]
+		datasetDeleted := s.deletedSet()[currentDatasetID]
 		datasetIncluded := len(targetDatasetIds) == 0 // no specified datasets means no restriction - all datasets are allowed
 		if !datasetIncluded {
 			for _, id := range targetDatasetIds {
@@ -1129,7 +1145,7 @@ func (s *Store) GetRelatedAtTime(from *RelatedFrom, limit int) ([]qresult, *Rela
 					}
 				}
 
-				if s.deletedDatasets[datasetID] || !datasetIncluded {
+				if s.deletedSet()[datasetID] || !datasetIncluded {
 					continue
 				}
 
@@ -1267,7 +1283,7 @@ func (s *Store) GetRelatedAtTime(from *RelatedFrom, limit int) ([]qresult, *Rela
 					}
 				}
 
-				if s.deletedDatasets[datasetID] || !datasetIncluded {
+				if s.deletedSet()[datasetID] || !datasetIncluded {
 					continue
 				}
 
